@@ -138,8 +138,8 @@ def run_shard(ctx):
             else:
                 d = gen_date(rng, today)
                 dt, _ = spell(rng, 'en', d, today)
-                if dz == 'UTC' and rng.random() < 0.25:
-                    h = rng.randint(0, 23)
+                if rng.random() < 0.25:
+                    h = rng.randint(0, 23)          # a bare hour behind 'at' is that hour on the wall clock of the default zone
                     tt, W = str(h), h * 3600
                 else:
                     tt, W = gen_time(rng)
